@@ -1782,9 +1782,10 @@ class FnTx:
 
     @staticmethod
     def is_false(call, name):
+        """`copy=<anything but the literal True>`: the call may hand back its input (`astype(float, copy=flag)`)"""
         for k in call.keywords:
             if k.arg == name:
-                return isinstance(k.value, ast.Constant) and k.value.value is False
+                return not (isinstance(k.value, ast.Constant) and k.value.value is True)
         return False
 
     def construct(self, cls, args, node):
